@@ -11,6 +11,7 @@ import SkNet.Lemmas.HeatHarmonic
 import SkNet.Lemmas.HeatConverge
 import SkNet.Lemmas.HeatExist
 import SkNet.Lemmas.HeatEquiv
+import SkNet.Lemmas.HeatGuards
 
 namespace SkNet.C14
 open SkNet SkNet.Heat SkNet.HeatSpec
@@ -19,7 +20,10 @@ attribute [-simp] List.getD_eq_getElem?_getD
 
 /-! ## normalize -/
 
-/-- **normalize_stochastic**. For every matrix and every row `i` of `normalize(matrix)`:
+/-- **normalize_stochastic**. About the *dense denotation* `A i j` (= sum of the stored entries at `(i,j)`; this is
+what the code computes on a CSR matrix in canonical form, and on any CSR matrix whose duplicate entries have the same
+sign — with cancelling signed duplicates `get_norms` adds the absolute values of the *stored* entries instead, see the
+status file; negative weights are outside C14). For every such matrix and every row `i` of `normalize(matrix)`:
 non-negative entries stay non-negative; a non-null row has L1 norm 1 — and sums to 1 when the weights are
 non-negative; a null row stays null; and a row is null exactly when all its entries are 0. -/
 theorem normalize_stochastic (m : Nat) (A : Nat → Nat → Rat) (i : Nat) :
@@ -862,5 +866,78 @@ example : (fitVector .dirichlet (relabelPrepared (fun i => (i + 2) % 3) ⟨3, pa
 example : (fitVector .diffusion (relabelPrepared (fun i => (i + 2) % 3) ⟨3, pathW, [0, -1, 1], false⟩) none 3 (1/2)).toOption
     = (fitVector .diffusion ⟨3, pathW, [0, -1, 1], false⟩ none 3 (1/2)).toOption.map
         (relabelVec 3 (fun i => (i + 2) % 3)) := by decide +kernel
+
+/-! ## soundness of the spec-line guards, non-vacuity of the contraction, the bipartite limit -/
+
+/-- **The guards of the harmonic spec lines are sound.** When the driver's executable guards answer `true`
+(non-negative weights, every node reaches a seed) and its executable check `isHarmonicB` accepts the solver's
+proposal `h`, then `h` is harmonic in the sense of the theorems and every harmonic function for these boundary
+values coincides with it on the `n` nodes: the spec line compares the implementation with *the* harmonic solution. -/
+theorem spec_harmonic_guards_sound (n : Nat) (w : Nat → Nat → Rat) (s : Seeds) (h : List Rat)
+    (hg1 : nonnegW n w = true) (hg2 : allReachSeed n w s = true) (hh : isHarmonicB n w s h = true) :
+    IsHarmonic n w (isSeed s) (fun i => (seedTemp? s i).getD 0) (fun i => h.getD i 0) ∧
+    ∀ h' : Nat → Rat, IsHarmonic n w (isSeed s) (fun i => (seedTemp? s i).getD 0) h' →
+      ∀ i, i < n → h' i = h.getD i 0 := by
+  have H := ((spec_isHarmonicB_iff n w s h).1 hh).2
+  exact ⟨H, fun h' H' => Heat.harmonic_unique_of_reach (nonnegW_sound hg1) (allReachSeed_sound hg2) H' H⟩
+
+/-- Non-vacuity: the guards and the check accept the weighted path with seeds `0 ↦ 0`, `2 ↦ 1` and `[0, 3/4, 1]`. -/
+example : nonnegW 3 pathW = true ∧ allReachSeed 3 pathW [(0, 0), (2, 1)] = true ∧
+    isHarmonicB 3 pathW [(0, 0), (2, 1)] [0, 3/4, 1] = true := by decide +kernel
+
+/-- Non-vacuity of `dirichlet_nonexpansive` / `dirichlet_contracts`: on the weighted path 0 – 1 – 2 (weights 1, 3) with
+boundary `[true, false, true]` and temperatures `[0, ·, 1]` the hypotheses hold with `h = [0, 3/4, 1]`, `δ = 1/4`,
+`T = 1`; starting from `[0, 0, 1]` (distance 3/4) one round already reaches `h`. -/
+example : IsHarmonic 3 pathW (fun i => [true, false, true].getD i false) (fun i => [0, -1, 1].getD i 0)
+    (fun i => [0, 3/4, 1].getD i 0) := by
+  intro i hi
+  have : i = 0 ∨ i = 1 ∨ i = 2 := by omega
+  rcases this with rfl | rfl | rfl <;> decide +kernel
+example : ∀ i j, i < 3 → j < 3 → 0 < pathW i j → (1/4 : Rat) ≤ normalize 3 pathW i j := by
+  intro i j hi hj
+  have h1 : i = 0 ∨ i = 1 ∨ i = 2 := by omega
+  have h2 : j = 0 ∨ j = 1 ∨ j = 2 := by omega
+  rcases h1 with rfl | rfl | rfl <;> rcases h2 with rfl | rfl | rfl <;> decide +kernel
+example : ∀ i, i < 3 → ReachesSeed 3 pathW (fun i => [true, false, true].getD i false) 1 i := by
+  intro i hi
+  have : i = 0 ∨ i = 1 ∨ i = 2 := by omega
+  rcases this with rfl | rfl | rfl
+  · exact .here (by omega) rfl
+  · exact .step (j := 2) (by omega) (by decide +kernel) (.here (by omega) rfl)
+  · exact .here (by omega) rfl
+example : loop (dirichletStep 3 (mat 3 3 (normalize 3 pathW)) [0, -1, 1] [true, false, true]) 2 [0, 0, 1] = [0, 3/4, 1] := by
+  decide +kernel
+
+/-- **The limit clause for a biadjacency matrix**: when the bipartite graph `[[0,B],[Bᵀ,0]]` is connected (non-negative
+weights) and at least one row or column carries a temperature, `values_row_` and `values_col_` of `Dirichlet` converge,
+as `n_iter` grows, to the unique harmonic function of that graph (rows first, then columns). -/
+theorem dirichlet_limit_connected_bipartite (nRow nCol nnz : Nat) (B : Nat → Nat → Rat) (a : Args) (α : Rat)
+    (p : Prepared) (hprep : getAdjacencyValues nRow nCol nnz B a = .ok p) (hbip : p.bipartite = true)
+    (hB : ∀ i j, 0 ≤ B i j) (hconn : Connected (nRow + nCol) (blockMat nRow B))
+    (b : Nat) (hb : b < nRow + nCol) (hs : 0 ≤ p.seeds.getD b 0) :
+    ∃ h : Nat → Rat,
+      IsHarmonic (nRow + nCol) (blockMat nRow B) (fun i => decide (0 ≤ p.seeds.getD i 0)) (fun i => p.seeds.getD i 0) h ∧
+      (∀ h' : Nat → Rat, IsHarmonic (nRow + nCol) (blockMat nRow B) (fun i => decide (0 ≤ p.seeds.getD i 0))
+          (fun i => p.seeds.getD i 0) h' → ∀ i, i < nRow + nCol → h' i = h i) ∧
+      ∀ ε : Rat, 0 < ε → ∃ K : Nat, ∀ nIter : Int, (K : Int) ≤ nIter →
+        ∀ out, fit .dirichlet nRow nCol nnz B a nIter α = .ok out →
+          ∃ r c, out.valuesRow = some r ∧ out.valuesCol = some c ∧ out.values = r ∧
+            (∀ i, i < nRow → absQ (r.getD i 0 - h i) ≤ ε) ∧ (∀ j, j < nCol → absQ (c.getD j 0 - h (nRow + j)) ≤ ε) := by
+  obtain ⟨_, _, hb1, _⟩ := getAdjacencyValues_ok hprep
+  obtain ⟨hpn, hadj⟩ := hb1 hbip
+  have hw : ∀ i j, i < nRow + nCol → j < nRow + nCol → 0 ≤ blockMat nRow B i j := fun i j _ _ => blockMat_nonneg hB i j
+  have hreach : ∀ i, i < nRow + nCol → ∃ t, ReachesSeed (nRow + nCol) (blockMat nRow B)
+      (fun i => decide (0 ≤ p.seeds.getD i 0)) t i := connected_reachesSeed hconn hb (by simpa using hs)
+  obtain ⟨h, H, huniq⟩ := harmonic_exists_unique (nRow + nCol) (blockMat nRow B) (fun i => decide (0 ≤ p.seeds.getD i 0))
+    (fun i => p.seeds.getD i 0) hw hreach
+  refine ⟨h, H, huniq, fun ε hε => ?_⟩
+  obtain ⟨K, hK⟩ := dirichlet_fit_converges_general nRow nCol nnz B a α p h hprep (by omega) hB
+    (by rw [hpn, hadj]; exact hreach) (by rw [hpn, hadj]; exact H) ε hε
+  refine ⟨K, fun nIter hk out hfit => ?_⟩
+  obtain ⟨v, rfl, hvl, hv⟩ := hK nIter hk out hfit
+  simp only [splitVars, hbip, if_true]
+  refine ⟨v.take nRow, v.drop nRow, rfl, rfl, rfl, fun i hi => ?_, fun j hj => ?_⟩
+  · rw [getD_take _ _ _ _ hi]; exact hv i (by omega)
+  · rw [getD_drop]; exact hv (nRow + j) (by omega)
 
 end SkNet.C14
